@@ -18,9 +18,9 @@ def tasks(tier, seed):
     for a, b in firsts:
         if a == 7 and b != 0:
             continue
-        if b in (4, 5) and a not in (2, 3):
+        if b == 4 and a not in (2, 3):
             continue
-        if (b == 4 and a != 2) or (b == 5 and a != 3):
+        if (b == 4 and a != 2) or (b == 5 and a == 2):
             continue
         txt = '#define VP_FS_CAP 4096\n#define STEPS %d\n#define FIRST_OP %d\n#define SECOND_OP %d\n' % (steps, a, b) + src
         ts.append(Task('hist.%s.%s' % (OPS[a].split('(')[0] + str(a), OPS[b].split('(')[0] + str(b)), txt, 'h_hist', None,
